@@ -31,6 +31,9 @@ def run(rep, tier, seed, replay):
         fam = _gen.exh_family(_random.Random(seed), 4000 if tier == "quick" else None)
         known = set(exprs)
         exprs += [e for e in fam if e not in known]
+        sr = _gen.sibling_ranges_family()
+        known = set(exprs)
+        exprs += [e for e in (_random.Random(seed + 4).sample(sr, 600) if tier == "quick" else sr) if e not in known]
         # the conjunction table of terminations, cell by cell, through computed terms
         tf = _gen.termination_family()
         known = set(exprs)
